@@ -20,9 +20,9 @@ func init() {
 		Title: "Text<->value round-trips: literals, %q, tostring/tonumber, coercions, dates",
 		Explanation: "Decided: R16-onereader — 'tonumber, coercion and the lexer agree' holds structurally iff there is one numeral reader: strconv.Parse*/fmt scan functions are called only from parseNumber, from the explicit-base arm of tonumber and from two allow-listed sites outside C16's statement (io.read('*n'), decimal escapes); parseNumber never calls ParseInt with base 0 (Go's base-0 language — 0b, 0o, leading-zero octal, '_' — is not Lua's); a reader error in the compiler raises a compile error instead of being replaced by a constant; tonumber without a base, LVAsNumber, CheckNumber, arithmetic and getIntField all go through parseNumber; " +
 			"R16-q — in LString.Format the 'q' verb cannot reach package fmt (Go's %q writes \\x00, \\u… which the Lua reader does not understand); R16-print — LNumber.String renders every integral value with plain digits (extra range conditions only beyond 2^53); R16-strftime — every layout in cDateFlagToGo tokenises completely into Go reference-time tokens and separators and, for directives with a fixed C-locale meaning, equals that meaning (table from ISO C 7.27.3.5); R16-time — the field names os.date('*t') writes include every name os.time reads, os.time builds the time in the local zone and os.date converts to UTC only under '!'. " +
-			"R16-errsense — every user of parseNumber uses the number only on paths where the error is nil. NOT decided: escape decoding, long brackets, shortest-round-trip printing, integral printing below 2^53 — value properties of strconv/fmt.",
+			"R16-errsense — every user of parseNumber uses the number only on paths where the error is nil. R08-comment shared — a decimal escape \\ddd is written only after an effective check against 255. NOT decided: escape decoding, long brackets, shortest-round-trip printing, integral printing below 2^53 — value properties of strconv/fmt.",
 		Trusted: []string{"C-locale strftime meanings (ISO C) and Go reference-time tokens written out in the checker"},
-		Rules:   []func(*Ctx){ruleOneReader, ruleQ, rulePrintInt, ruleStrftime, ruleTime, ruleErrSense},
+		Rules:   []func(*Ctx){ruleOneReader, ruleQ, rulePrintInt, ruleStrftime, ruleTime, ruleErrSense, ruleLongComment},
 	})
 }
 
